@@ -3,8 +3,8 @@
    Tracker part: every queue size, worker count, initial shared state and daemon content, every event list (including
    changes of the daemon behind the tracker's back), every cid, every filter mask f : N.
    Cluster-wide part: every member list, allocation list and reply vector. *)
-From V Require Import Base.Common Model.C05_Tracker Model.C05_Check Model.C06_Check Model.C06_Global
-  Proofs.C05_Tracker Proofs.C06_Status Proofs.C06_Global.
+From V Require Import Base.Common Model.C05_Tracker Model.C05_Check Model.C06_Check Model.C06_Global Model.C06_GlobalCheck
+  Proofs.C05_Tracker Proofs.C06_Status Proofs.C06_Global Proofs.C06_Monitor Proofs.C06_MonitorT.
 Open Scope N_scope.
 
 Definition reached (q n : nat) (ps : list (N * tpin)) (i : list (N * bool)) (evs : list event) : st := run (init q n ps i) evs.
@@ -92,3 +92,77 @@ Proof. vm_compute. repeat split. Qed.
 Example global_example :
   global_cid 0 false [0; 1; 2; 3] (Some (mk_gpin [1; 2; 5] false)) [RInfo 1 16; RErr; RAuth] = [(2, 2); (1, 16); (3, 256); (0, 256)].
 Proof. vm_compute. reflexivity. Qed.
+
+(* ---- the run-time monitors and the statements above ---- *)
+
+(* cluster-wide view (Model/C06_GlobalCheck.v, codes 30 / 31 / 32). Completeness: a case that carries the model's own answer
+   as the observation produces nothing at all (no code 1, 30, 31, 32), for every member list, pin, reply vector *)
+Theorem gcid_model_passes id self follower members pin replies :
+  C06_GlobalCheck.check_case (id, GCid self follower members pin replies (global_cid self follower members pin replies)) = [].
+Proof. exact (gcid_model_passes_l id self follower members pin replies). Qed.
+Print Assumptions gcid_model_passes.
+
+Theorem gslice_model_passes id self follower members replies :
+  C06_GlobalCheck.check_case (id, GSlice self follower members replies (global_slice self follower members replies)) = [].
+Proof. exact (gslice_model_passes_l id self follower members replies). Qed.
+Print Assumptions gslice_model_passes.
+
+(* the fact behind code 32 (new): a member that could not be asked shows cluster_error under every listed cid *)
+Theorem global_slice_errored (self : N) (follower : bool) (members : list N) (replies : list sreply) (m c : N) (e : list (N * N)) :
+  In (m, SErr) (combine (if follower then [self] else members) replies) ->
+  aget c (global_slice self follower members replies) = Some e -> aget m e = Some 2.
+Proof. exact (slice_errored_l self follower members replies m c e). Qed.
+Print Assumptions global_slice_errored.
+
+(* soundness: an observed answer on which only code 1 may appear has each peer once and, for a non-follower: the unpinned cid
+   is unpinned on every member; for a pinned cid with honest replies and distinct allocations, view_spec (allocated peers show
+   their own report / cluster_error / nothing, other members remote, nobody else listed) *)
+Theorem gcid_monitor_sound id self follower members pin replies obs :
+  (forall k t, In (id, k, t) (C06_GlobalCheck.check_case (id, GCid self follower members pin replies obs)) -> k = 1) ->
+  NoDup (akeys obs) /\
+  (follower = false ->
+     match pin with
+     | Some g => g_every g = false -> NoDup (g_alloc g) -> honest (combine (g_alloc g) replies) -> view_spec members g replies obs
+     | None => forall m, In m members -> aget m obs = Some 128 end).
+Proof. exact (gcid_monitor_sound_l id self follower members pin replies obs). Qed.
+Print Assumptions gcid_monitor_sound.
+
+Theorem gslice_monitor_sound (id self : N) (follower : bool) (members : list N) (replies : list sreply) (obs : list (N * list (N * N))) :
+  (forall k t, In (id, k, t) (C06_GlobalCheck.check_case (id, GSlice self follower members replies obs)) -> k = 1) ->
+  NoDup (akeys obs) /\ (forall c e, In (c, e) obs -> NoDup (akeys e)) /\
+  (forall m c e, In (m, SErr) (combine (if follower then [self] else members) replies) -> In (c, e) obs -> aget m e = Some 2).
+Proof. exact (gslice_monitor_sound_l id self follower members replies obs). Qed.
+Print Assumptions gslice_monitor_sound.
+
+(* tracker views (Model/C06_Check.v), the two monitors that need no bookkeeping. Soundness: code 22 absent -> at every
+   observation of the history Status and the listing agree as classes; code 23 absent -> every recorded filtered listing is
+   the unfiltered one restricted to its mask *)
+Theorem views_agree_monitor_sound c cf l e o : ~ In 22 (spec_codes6 cf l) -> In (e, o) l -> In c (nrange (ncid_of cf)) ->
+  class_bits (o_st o c) = entry_class (o_all o) c.
+Proof. exact (views_agree_monitor_sound_l c cf l e o). Qed.
+Print Assumptions views_agree_monitor_sound.
+
+Theorem filter_law_monitor_sound cf l e o f lf : ~ In 23 (spec_codes6 cf l) -> In (e, o) l -> In (f, lf) (o_masks o) ->
+  forall a, In a lf <-> In a (o_all o) /\ match_ (snd a) f = true.
+Proof. exact (filter_law_monitor_sound_l cf l e o f lf). Qed.
+Print Assumptions filter_law_monitor_sound.
+
+(* completeness of those two: along every event list from a (re)started tracker the model's own observations (mtrace: what the
+   harness records, computed from the model state, with the listings for any masks fs) raise neither code *)
+Theorem model_views_pass q np ps i nc fs evs x : wf_pinset ps ->
+  ~ In 22 (spec_walk6 nc x (mtrace nc fs (init q np ps i) evs)) /\ ~ In 23 (spec_walk6 nc x (mtrace nc fs (init q np ps i) evs)).
+Proof. exact (model_views_pass_l q np ps i nc fs evs x). Qed.
+Print Assumptions model_views_pass.
+
+(* non-vacuity: the global example above as a harness case passes; an answer listing a stranger, or a listing that forgets the
+   cluster_error of an unreachable member, does not *)
+Example c06_monitor_example :
+  let g := mk_gpin [1; 2; 5] false in
+  honest (combine (g_alloc g) [RInfo 1 16; RErr; RAuth]) /\ NoDup (g_alloc g) /\
+  C06_GlobalCheck.check_case (9, GCid 0 false [0; 1; 2; 3] (Some g) [RInfo 1 16; RErr; RAuth] [(2, 2); (1, 16); (3, 256); (0, 256)]) = [] /\
+  C06_GlobalCheck.check_case (9, GCid 0 false [0; 1; 2; 3] (Some g) [RInfo 1 16; RErr; RAuth] [(7, 16); (2, 2); (1, 16); (3, 256); (0, 256)])
+    = [(9, 1, 0); (9, 31, 0)] /\
+  C06_GlobalCheck.check_case (9, GSlice 0 false [0; 1] [SList [(4, 0, 16)]; SErr] [(4, [(0, 16)])]) = [(9, 1, 0); (9, 32, 0)] /\
+  C06_GlobalCheck.check_case (9, GSlice 0 false [0; 1] [SList [(4, 0, 16)]; SErr] (global_slice 0 false [0; 1] [SList [(4, 0, 16)]; SErr])) = [].
+Proof. cbv zeta. split; [intros d r H; simpl in H; destruct H as [E|[E|[E|[]]]]; inversion E; subst; auto|].
+  split; [simpl; repeat constructor; simpl; intuition discriminate|]. repeat split; vm_compute; reflexivity. Qed.
